@@ -33,7 +33,8 @@ JudgeFix(o) == IF GotFix(o) = ExpFix(o) THEN "ok"
 \* and 50 ms; in ns (logged divided by 1000).  kernel_us = the kernel's own file, same tolerance.
 Near(a, b) == 2 * a >= b /\ a <= 2 * b + 50000
 JudgeUnit(o) ==
-  IF ~o["in"] \/ o.procs # 1 THEN "processes"                     \* AddProc / Processes: exactly the burner
+  IF o.split THEN "membership"                                    \* AddProc: every thread of the burner is in the group
+  ELSE IF ~o["in"] \/ o.procs # 1 THEN "processes"                \* Processes: exactly the burner
   ELSE IF ~Near(o.kernel_us, o.rusage_us) THEN "kernel-truth"     \* my tolerance is wrong, not the code
   ELSE IF o.cpu_err THEN "cpu-error"
   ELSE IF ~Near(o.cpu_us, o.rusage_us) THEN "cpu-unit"
